@@ -795,6 +795,11 @@ func (z *Decimal) FMA(x, y, u *Decimal) *Decimal {
 
 	if x.form == finite && y.form == finite {
 		// x * y (common case)
+		if u.form == inf {
+			// the exact product is finite even if its exponent is out of
+			// range: x*y + ±Inf == ±Inf
+			return z.Set(u)
+		}
 		// prevent rounding in umul
 		prec := z0.prec
 		z0.prec = MaxPrec
